@@ -78,13 +78,14 @@ package net
 // (C11: a connection lost in the middle of a message - inside the header or inside the payload - makes
 // Read fail, which is what turns into closeWith(err) in the receive loop and fails the calls in flight)
 //@ func (m *Message) Read(r io.Reader) (err error)
-//@   tags C01 C07 C08 C11
+//@   tags C01 C07 C08 C11 C10 C04
 //@   opt alloclimit 10485760
 //@   decoder r
 //@   modifies *m
-//@   ensures err == nil ==> validhdr(m.Header) && m.Header.Size <= 10485760 && hdrdec(r.data, old(r.pos), m.Header)
-//@   ensures err == nil ==> r.pos == old(r.pos) + 28 + m.Header.Size && len(m.Payload) == m.Header.Size
-//@   ensures err == nil ==> forall j int {m.Payload[j]} :: 0 <= j && j < len(m.Payload) ==> m.Payload[j] == r.data[old(r.pos) + 28 + j]
+// (C10: the peer receives every message intact; C04: the answer a caller gets is the bytes that were sent)
+//@   ensures[C01,C10,C04] err == nil ==> validhdr(m.Header) && m.Header.Size <= 10485760 && hdrdec(r.data, old(r.pos), m.Header)
+//@   ensures[C01,C10,C04] err == nil ==> r.pos == old(r.pos) + 28 + m.Header.Size && len(m.Payload) == m.Header.Size
+//@   ensures[C01,C10,C04] err == nil ==> forall j int {m.Payload[j]} :: 0 <= j && j < len(m.Payload) ==> m.Payload[j] == r.data[old(r.pos) + 28 + j]
 //@   ensures[C08,C11] old(r.len) - old(r.pos) < 28 ==> err != nil
 //@   ensures[C08,C11] old(r.len) - old(r.pos) >= 28 && old(r.len) - old(r.pos) < 28 + le32(r.data, old(r.pos) + 8) ==> err != nil
 //@   ensures[C01] r.faultfree && old(r.len) - old(r.pos) >= 28 && validbytes(r.data, old(r.pos)) && le32(r.data, old(r.pos) + 8) <= 10485760 && old(r.len) - old(r.pos) >= 28 + le32(r.data, old(r.pos) + 8) ==> err == nil
@@ -160,23 +161,25 @@ package net
 //@   opt spawn_effects yes
 
 //@ func (e *endPoint) RemoveHandler(id int) (err error)
-//@   tags C17 C12
+// (shared mechanism: a call's reply handler, a subscription's handler and a disconnect callback are all
+// registered / removed through these two functions: C04, C11, C13 rely on the same table clauses)
+//@   tags C17 C12 C04 C11 C13
 //@   requires !e.handlersMutex.lockw
 //@   modifies everything
 //@   ensures !e.handlersMutex.lockw
-//@   ensures[C17] err == nil ==> 0 <= id && id < at_lock(len(e.handlers)) && at_lock(e.handlers[id]) != nil && at_unlock(e.handlers[id]) == nil && at_lock(e.handlers[id]).hclosed == 1 && at_lock(e.handlers[id]).consumer.chclosed
-//@   ensures[C17] err != nil ==> id < 0 || id >= at_lock(len(e.handlers)) || at_lock(e.handlers[id]) == nil
-//@   ensures[C17] at_unlock(len(e.handlers)) == at_lock(len(e.handlers)) && forall i int {at_unlock(e.handlers[i])} :: 0 <= i && i < at_lock(len(e.handlers)) && (i != id || err != nil) ==> at_unlock(e.handlers[i]) == at_lock(e.handlers[i])
+//@   ensures[C17,C04,C11,C13] err == nil ==> 0 <= id && id < at_lock(len(e.handlers)) && at_lock(e.handlers[id]) != nil && at_unlock(e.handlers[id]) == nil && at_lock(e.handlers[id]).hclosed == 1 && at_lock(e.handlers[id]).consumer.chclosed
+//@   ensures[C17,C04,C11,C13] err != nil ==> id < 0 || id >= at_lock(len(e.handlers)) || at_lock(e.handlers[id]) == nil
+//@   ensures[C17,C04,C11,C13] at_unlock(len(e.handlers)) == at_lock(len(e.handlers)) && forall i int {at_unlock(e.handlers[i])} :: 0 <= i && i < at_lock(len(e.handlers)) && (i != id || err != nil) ==> at_unlock(e.handlers[i]) == at_lock(e.handlers[i])
 
 //@ func (e *endPoint) MakeHandler(f Filter, queue chan<- *Message, cl Closer) (result int)
-//@   tags C17 C10
+//@   tags C17 C10 C04 C11 C13
 //@   requires !e.handlersMutex.lockw
 //@   requires queue != nil && !queue.chclosed && !queue.chowned
 //@   modifies everything
 //@   ensures !e.handlersMutex.lockw
-//@   ensures[C17] 0 <= result && result < at_unlock(len(e.handlers)) && at_unlock(e.handlers[result]) != nil && at_unlock(e.handlers[result]).consumer == queue && at_unlock(e.handlers[result]).hclosed == 0
-//@   ensures[C17] result < at_lock(len(e.handlers)) ==> at_lock(e.handlers[result]) == nil
-//@   ensures[C17] forall i int {at_unlock(e.handlers[i])} :: 0 <= i && i < at_lock(len(e.handlers)) && i != result ==> at_unlock(e.handlers[i]) == at_lock(e.handlers[i])
+//@   ensures[C17,C04,C11,C13] 0 <= result && result < at_unlock(len(e.handlers)) && at_unlock(e.handlers[result]) != nil && at_unlock(e.handlers[result]).consumer == queue && at_unlock(e.handlers[result]).hclosed == 0
+//@   ensures[C17,C04,C11,C13] result < at_lock(len(e.handlers)) ==> at_lock(e.handlers[result]) == nil
+//@   ensures[C17,C04,C11,C13] forall i int {at_unlock(e.handlers[i])} :: 0 <= i && i < at_lock(len(e.handlers)) && i != result ==> at_unlock(e.handlers[i]) == at_lock(e.handlers[i])
 //@   call Unlock#1: ghost queue.chowned := true
 //@   call Unlock#1: ghost queue.chslot := result
 //@   call Unlock#1: ghost newHandler.hslot := result
